@@ -134,6 +134,8 @@ type topo struct {
 	Hash         string     `json:"hash"`
 	Chal         string     `json:"challenge"` // "commit": Commit(inputs, exported) ; "outputs": the exported outputs ; "none"
 	ExportInputs bool       `json:"export_inputs"`
+
+	skip atomic.Bool // the native solving hint would not return for this topology (set by runTopologies)
 }
 
 func (t *topo) inputs() (r []int) {
@@ -338,8 +340,15 @@ func genTopo(rng *rand.Rand, name string, n, maxDepth int, depPattern string) *t
 	}
 	depth := make([]int, nIn, 32)
 	nGates := maxDepth + rng.IntN(2+maxDepth)
-	if nGates > 12 {
-		nGates = 12
+	maxGates := 12
+	switch {
+	case n >= 32:
+		maxGates = 6
+	case n >= 16:
+		maxGates = 8
+	}
+	if nGates > maxGates {
+		nGates = maxGates
 	}
 	allowCustom := rng.IntN(5) != 0
 	shallow := func() int { // a wire that can still be consumed
